@@ -24,6 +24,7 @@ META = {
 
 MAX_MINOR = 39
 SIB = '88888888-8888-4888-8888-888888888888'   # second child of R
+BARE = '88888888-8888-4888-8888-88888888888b'  # no inventory, traits, ...
 SETTINGS = ['1.%d' % i for i in range(MAX_MINOR + 1)] + ['latest', None]
 BAD_VERSIONS = ['0.9', '1.40', '2.0', '1.100', '0.0']
 GARBAGE = ['x.y', '1', 'one.zero', '1.2.3']
@@ -477,6 +478,14 @@ def features(d=None):
         r.headers.get('cache-control') == 'no-cache',
         lambda r: 'last-modified' not in r.headers and
         'cache-control' not in r.headers)
+    add('1.15 last-modified and cache-control on GET of an empty '
+        'collection', 15,
+        lambda v, s: Req('GET', '/resource_providers/%s/inventories' % BARE,
+                         s),
+        lambda r: r.status == 200 and 'last-modified' in r.headers and
+        r.headers.get('cache-control') == 'no-cache',
+        lambda r: r.status == 200 and 'last-modified' not in r.headers and
+        'cache-control' not in r.headers)
     add('1.15 last-modified on PUT with body', 15,
         lambda v, s: Req('PUT', '/resource_providers/%s' % E, s,
                          {'name': 'empty2'}),
@@ -530,6 +539,9 @@ def run_shard(spec, res):
             'PUT', '/resource_providers/%s/inventories' % SIB,
             {'resource_provider_generation': 0,
              'inventories': {'SRIOV_NET_VF': {'total': 8}}})
+        assert rr.status == 200, rr.status
+        rr = svc.client.call('POST', '/resource_providers',
+                             {'name': 'bare', 'uuid': BARE})
         assert rr.status == 200, rr.status
         rr = svc.client.call(
             'POST', '/resource_providers/%s/inventories' % R,
